@@ -1,18 +1,19 @@
 #!/bin/bash
 # run every seeded change against the check(s) recorded as detecting it (quick tier); each must be detected by at least one
+# usage: tools/seedmatrix.sh [parallel jobs, default 5]   (env VERIF_SEED is passed on to the checks)
 cd "$(dirname "$0")/.."
-fail=0
-for d in seeded/*/; do
-  n=$(basename $d)
+one() {
+  d=$1; n=$(basename $d)
   checks=$(python3 -c "
 import json,sys
 m=json.load(open('$d/meta.json'))
 print(' '.join(sorted({x.split()[0] for x in m['detected_by']})))")
-  out=$(tools/seedrun.sh $PWD/$d/patch.diff $PWD/$d/demo.py $checks 2>&1)
+  demo=$PWD/$d/demo.py; [ -f $demo ] || demo=-
+  out=$(tools/seedrun.sh $PWD/$d/patch.diff $demo $checks 2>&1)
   lines=$(echo "$out" | grep -E "^C[0-9]+ rc=" | cut -c1-110 | tr '\n' '|')
   d0=$(echo "$out" | grep -o "demo on unchanged: exit [0-9]*" ); d1=$(echo "$out" | grep -o "demo on changed: exit [0-9]*"); t=$(echo "$out" | grep -o "baseline_missing=[0-9]*")
   ok=MISSED; echo "$lines" | grep -q "rc=1" && ok=caught
-  [ $ok = MISSED ] && fail=1
   echo "$n | $ok | $d0 | $d1 | $t | $lines"
-done
-exit $fail
+}
+export -f one
+ls -d seeded/*/ | sed 's#/$##' | xargs -P ${1:-5} -I{} bash -c 'one {}'
